@@ -56,3 +56,11 @@ theorem URI_parse (uri : Bytes) (hlen : uri.length < 2 ^ 64 - 1) :
       · simp [hq, hf, hqf, h1, h3, h4, h5, g3, g4, g5]
 
 end Via
+
+namespace Via
+/-- non-vacuity: a target with a query and a fragment (hypothesis of `URI_parse` met, all three parts non-empty) -/
+example : GenUri.parse (b!"/a/b?x=1#frag") = some (b!"/a/b", b!"x=1", b!"frag") ∧ (b!"/a/b?x=1#frag").length < 2 ^ 64 - 1 := by
+  decide
+/-- a '#' before the '?': no query, the fragment keeps the '?' -/
+example : GenUri.parse (b!"/a#f?q") = some (b!"/a", [], b!"f?q") := by decide
+end Via
